@@ -81,7 +81,7 @@ fn encode_and_check(text: &str, hls: &[(usize, usize, HlTag)]) -> Option<(String
 }
 
 fn encoder_layer(rep: &mut Report, tier: Tier) {
-    let l = tier.pick(6usize, 8usize);
+    let l = tier.pick(7usize, 8usize);
     let k = SYMS.len() as u64;
     let tags = [HlTag::Function, HlTag::Module, HlTag::Constructor];
     let lists = AtomicU64::new(0);
